@@ -4,7 +4,7 @@ from ..common import rng
 
 ERR_FOR = {"openat": ["EACCES", "EMFILE"], "ftruncate": ["ENOSPC"], "copy_file_range": ["EIO"], "fchmod": ["EPERM"],
            "utimensat": ["EPERM"], "rename": ["EACCES"], "mkdir": ["ENOSPC"], "symlink": ["EEXIST"], "mknodat": ["EPERM"],
-           "unlink": ["EACCES"], "fsync": ["EIO"]}
+           "unlink": ["EACCES"], "fsync": ["EIO"], "statx": ["EIO", "EACCES"], "newfstatat": ["EIO", "EACCES"]}
 
 def campaign_scenarios():
     E, SC, tree = nsplane.E, nsplane.SC, nsplane.tree
